@@ -236,6 +236,9 @@ func runEnc(c encCase, r *pb.Rec) error {
 		g2, e2 := strz.HexDecode(s)
 		g3, e3 := strz.HexDecodeToString(in)
 		g4, e4 := strz.HexDecodeToString(s)
+		// results handed out (also the decoded prefix returned with an error) must survive later calls
+		strz.HexDecode("00112233445566778899aabbccddeeff")
+		strz.HexDecodeToString("ffeeddccbbaa99887766554433221100zz")
 		for i, x := range []struct {
 			b []byte
 			e error
@@ -269,6 +272,11 @@ func runEnc(c encCase, r *pb.Rec) error {
 		g2, e2 := strz.Base64Decode(s, enc)
 		g3, e3 := strz.Base64DecodeToString(in, enc)
 		g4, e4 := strz.Base64DecodeToString(s, enc)
+		// results handed out (also the decoded prefix returned with an error) must survive later calls
+		for _, e := range b64encs {
+			strz.Base64Decode("QUJDREVGR0hJSktMTU5PUFFSU1RVVldYWVo", e)
+			strz.Base64DecodeToString([]byte("enp6enp6enp6enp6enp6enp6enp6!!"), e)
+		}
 		for i, x := range []struct {
 			b []byte
 			e error
